@@ -38,6 +38,11 @@ type WEvent struct {
 	// sentinel), "S" io.ErrShortWrite, "C" io.ErrClosedPipe. Whatever it is,
 	// it is the writer's error and has to come back as it is.
 	Kind string `json:"kind,omitempty"`
+	// Forever: the event is never used up - from here on the writer answers
+	// every call in this way (a consumer that has gone away, a queue nobody
+	// drains any more). The call in which the fault happens has to return
+	// the writer's error; the history ends there.
+	Forever bool `json:"forever,omitempty"`
 }
 
 func writerFaultErr(kind string) error {
@@ -65,6 +70,7 @@ type scriptWriter struct {
 	lastOffer  []byte
 	lastFault  error  // the error of the most recent fault
 	lens       *[]int // lengths offered by all writer calls of the case
+	stuck      bool   // a Forever event has produced a fault
 }
 
 func (w *scriptWriter) beginCall() { w.calls, w.emptyRun = 0, 0 }
@@ -94,7 +100,9 @@ func (w *scriptWriter) Write(p []byte) (int, error) {
 	var err error
 	if len(w.events) > 0 {
 		ev := w.events[0]
-		w.events = w.events[1:]
+		if !ev.Forever {
+			w.events = w.events[1:]
+		}
 		if ev.Accept >= 0 && ev.Accept < n {
 			n = ev.Accept
 			err = writerFaultErr(ev.Kind)
@@ -103,6 +111,9 @@ func (w *scriptWriter) Write(p []byte) (int, error) {
 			err = writerFaultErr(ev.Kind)
 		}
 		if err != nil {
+			if ev.Forever {
+				w.stuck = true
+			}
 			w.lastFault = err
 			w.faults++
 			if n > 0 && n < len(p) {
@@ -178,6 +189,7 @@ type decExec struct {
 	lastErr           error
 	haveErr           bool
 	callLens          []int
+	stuckEnd          bool // the history ended at a writer that fails for good
 }
 
 func (x *decExec) report(prop, format string, a ...any) {
@@ -378,6 +390,13 @@ func (x *decExec) step(op DOp) {
 
 func (x *decExec) drain() {
 	for i := 0; len(x.retriesPending) > 0 && !x.dead; i++ {
+		if x.wr != nil && x.wr.stuck {
+			// the writer fails for good: the documented caller gives up
+			x.retriesPending = nil
+			x.stuckEnd = true
+			x.dead = true
+			return
+		}
 		if i > 5000 {
 			x.report("C18", "the retry protocol did not complete within 5000 retries")
 			x.dead = true
@@ -435,8 +454,8 @@ func (x *decExec) afterCall(what string) {
 	}
 	if x.wr.spun {
 		x.spins++
-		x.report("C06", "%s: the call keeps draining an empty buffer to the writer without making progress (%d consecutive empty writes)",
-			what, x.wr.emptyRun)
+		x.report("C06", "%s: the call keeps calling the writer without making progress (%d consecutive empty writes, %d writer calls within the one call)",
+			what, x.wr.emptyRun, x.wr.calls)
 		x.dead = true
 		return
 	}
